@@ -75,6 +75,9 @@ pub enum StdoutKind {
     /// Standard output is a connected AF_UNIX stream socket whose peer reads exactly k bytes and
     /// then closes (ksh93 pipelines, socat, inetd-style services): the next write fails with EPIPE.
     SocketCloseAfter(usize),
+    /// The slave side of a pseudo-terminal whose master is already closed (a terminal that hung up):
+    /// write(2) fails with EIO.
+    HungUpPty,
 }
 
 #[derive(Clone, Debug)]
@@ -221,7 +224,7 @@ pub fn feed_fifo_bursts(path: PathBuf, bursts: Vec<Vec<u8>>, pause_ms: u64) -> s
 
 fn open_pty() -> Option<(RawFd, File)> {
     unsafe {
-        let master = libc::posix_openpt(libc::O_RDWR | libc::O_NOCTTY);
+        let master = libc::posix_openpt(libc::O_RDWR | libc::O_NOCTTY | libc::O_CLOEXEC);
         if master < 0 {
             return None;
         }
@@ -262,6 +265,27 @@ pub enum SigEnv {
 thread_local! {
     static SIG_ENV: std::cell::Cell<SigEnv> = std::cell::Cell::new(SigEnv::Default);
     static NOFILE: std::cell::Cell<Option<u64>> = std::cell::Cell::new(None);
+    static STDERR: std::cell::Cell<StderrKind> = std::cell::Cell::new(StderrKind::Pipe);
+}
+
+/// Where the process's standard error goes.
+#[derive(Clone, Copy, Debug, PartialEq)]
+pub enum StderrKind {
+    /// a pipe the harness reads to the end (the default)
+    Pipe,
+    /// /dev/full: every write fails with ENOSPC
+    DevFull,
+    /// a pipe whose read end is already closed: writes fail with EPIPE (and raise SIGPIPE unless ignored)
+    ClosedPipe,
+}
+
+/// Like `run`, with standard error connected as given (nothing is captured from it then).
+pub fn run_stderr(r: Run, kind: StderrKind) -> ProcOut {
+    let _g = EXCLUSIVE.read().unwrap_or_else(|e| e.into_inner());
+    STDERR.with(|c| c.set(kind));
+    let out = run_inner(r, None);
+    STDERR.with(|c| c.set(StderrKind::Pipe));
+    out
 }
 
 /// Like `run`, with the process limited to `n` open descriptors (RLIMIT_NOFILE, set from outside
@@ -362,6 +386,23 @@ fn run_inner(r: Run, arg0: Option<&str>) -> ProcOut {
             }
         }
     }
+    match STDERR.with(|c| c.get()) {
+        StderrKind::Pipe => {}
+        StderrKind::DevFull => {
+            if let Ok(f) = std::fs::OpenOptions::new().write(true).open("/dev/full") {
+                cmd.stderr(Stdio::from(f));
+            }
+        }
+        StderrKind::ClosedPipe => {
+            let mut fds = [0 as RawFd; 2];
+            if unsafe { libc::pipe2(fds.as_mut_ptr(), libc::O_CLOEXEC) } == 0 {
+                unsafe {
+                    libc::close(fds[0]);
+                    cmd.stderr(Stdio::from(File::from_raw_fd(fds[1])));
+                }
+            }
+        }
+    }
     let mut pty_master: Option<RawFd> = None;
     let mut out_file: Option<PathBuf> = None;
     // (read end, number of filler bytes) of a pre-filled non-blocking pipe
@@ -401,6 +442,15 @@ fn run_inner(r: Run, arg0: Option<&str>) -> ProcOut {
                 Err(e) => return ProcOut { status: Status::SpawnError(e.to_string()), stdout: vec![], stderr: vec![] },
             }
         }
+        StdoutKind::HungUpPty => match open_pty() {
+            Some((m, slave)) => {
+                unsafe {
+                    libc::close(m);
+                }
+                cmd.stdout(Stdio::from(slave));
+            }
+            None => return ProcOut { status: Status::SpawnError("cannot open a pseudo-terminal".into()), stdout: vec![], stderr: vec![] },
+        },
         StdoutKind::SocketCloseAfter(_) => match std::os::unix::net::UnixStream::pair() {
             Ok((a, b)) => {
                 cmd.stdout(Stdio::from(std::os::fd::OwnedFd::from(b)));
@@ -545,10 +595,12 @@ fn run_inner(r: Run, arg0: Option<&str>) -> ProcOut {
         StdinKind::Null | StdinKind::FileAtOffset(..) | StdinKind::Directory => None,
     };
     // stderr reader
-    let mut se = child.stderr.take().unwrap();
+    let se = child.stderr.take();
     let stderr_thread = std::thread::spawn(move || {
         let mut v = vec![];
-        let _ = se.read_to_end(&mut v);
+        if let Some(mut se) = se {
+            let _ = se.read_to_end(&mut v);
+        }
         v
     });
     // stdout
